@@ -15,12 +15,15 @@ def plan(tier, seed):
     alts = spaces.label_choices(seed, 2)
     if tier == 'quick':
         by_mode = {
-            'absent_enum': [dict(n=3, m=2, labels='ints', schemes='three', what='loops'),
+            'absent_enum': [dict(n=3, m=2, labels='ints', schemes='c15', what='loops'),
+                            dict(n=2, m=3, labels='ints', schemes='c15', what='loops'),
                             dict(n=3, m=2, labels='letters', schemes='one', what='loops'),
                             dict(n=3, m=2, labels=alts[0], schemes='one', what='loops'),
                             dict(n=2, m=2, labels='ints', schemes='two', what='pairs', per=2),
                             dict(n=3, m=1, labels='letters', schemes='one', what='pairs', per=2),
-                            dict(n=3, m=2, labels='ints', schemes='one', what='probe', per=10)],
+                            dict(n=3, m=2, labels='ints', schemes='one', what='probe', per=10),
+                            dict(n=3, m=3, labels='ints', schemes='ext', what='loops', per=200, nontrivial_only=True,
+                                 events='decomposing')],
             'stub': [dict(n=3, m=2, labels='ints', schemes='two', what='loops'),
                      dict(n=2, m=2, labels='ints', schemes='one', what='pairs', per=2)],
             'absent': [dict(n=2, m=2, labels='ints', schemes='two', what='loops', per=2)],
@@ -283,7 +286,18 @@ def run_shard(sh):
     evs = _lib['events']
     probes = [e for e in evs if e.name in ('BioConsert one=False', 'ParCons one=True', 'KwikSort one=True', 'Borda one=True',
                                            'get_kemeny_score', 'unified_rankings', 'parfront_partition', 'accessors')]
+    all_events = _lib['events']
+    if sh.get('events') == 'decomposing':
+        # the configurations that split the problem into components and solve sub-problems
+        _lib['events'] = [e for e in all_events if e.name.startswith(('ParCons', 'Exact')) or e.name in (
+            'parcons_partition', 'parfront_partition')]
     for index, ds in spaces.ds_iter_strided(sh['n'], sh['m'], sh['shard'], sh['nshards']):
+        if sh.get('nontrivial_only'):
+            u = spaces.universe_of(ds)
+            if not any(refmodel.nontrivial_components(u, refmodel.ref_table(u, ds, s[0], s[1]))
+                       for s in cross.SCHEME_KINDS[sh['schemes']]):
+                continue
+            ctx.count('datasets_with_a_component_that_cannot_be_all_tied')
         ctx.cases += 1
         for s in cross.SCHEME_KINDS[sh['schemes']]:
             if what == 'loops':
@@ -294,6 +308,7 @@ def run_shard(sh):
                 pairs(ctx, ds, sh['labels'], sh['n'], s, labels)
             else:
                 pairs(ctx, ds, sh['labels'], sh['n'], s, labels, firsts=evs, seconds=probes)
+    _lib['events'] = all_events
     ctx.sample({'what': what, 'block': [sh['n'], sh['m']], 'labels': sh['labels'], 'events': [e.name for e in evs][:60],
                 'mode': _lib['mode']})
     return ctx.result()
